@@ -242,8 +242,13 @@ func parseTOCEStargz(r io.Reader) (toc *estargz.JTOC, tocDgst digest.Digest, err
 	}
 	dgstr := digest.Canonical.Digester()
 	toc = new(estargz.JTOC)
-	if err := json.NewDecoder(io.TeeReader(tr, dgstr.Hash())).Decode(&toc); err != nil {
+	hr := io.TeeReader(tr, dgstr.Hash())
+	if err := json.NewDecoder(hr).Decode(&toc); err != nil {
 		return nil, "", fmt.Errorf("error decoding TOC JSON: %v", err)
+	}
+	// The decoder stops reading after the JSON value; the digest is defined over the whole TOC file.
+	if _, err := io.Copy(io.Discard, hr); err != nil {
+		return nil, "", fmt.Errorf("error reading TOC JSON: %v", err)
 	}
 	if err := tr.Close(); err != nil {
 		return nil, "", err
